@@ -73,6 +73,8 @@ def infeasible(A, a, B, b):
                     return "a request that uses no unit has units=0, hist=none, touchkind=none, mix=-, cls_pos=none"
     if v.get("units") == "1" and v.get("hist") == "mixed":
         return "mixed history needs two units"
+    if v.get("units") == "1" and v.get("mix") in ("namespaces", "both"):
+        return "two namespaces are two units"
     if v.get("id") == "null" and v.get("mix") in ("namespaces", "both"):
         return "projects without namespaces have one (null) id"
     if v.get("mix") == "one" and v.get("units") == "4+":
@@ -200,6 +202,41 @@ class Plan:
                         cands.append({"in": [i, k], "out": []})
                         cands.append({"in": [i], "out": [k]})                   # another unit touched outside only
                         cands.append({"in": [k], "out": [i, k]})
+        dflt = [i for i, inf in enumerate(self.info) if inf["defaulted"]]
+        for u in units:                                                          # a defaulted key next to any unit
+            i = pick(u, rng.choice([None, "plain_sub", "interp_top", "interp_sub"])) or pick(u)
+            if i is not None and dflt:
+                same_ns = [d for d in dflt if self.info[d]["req"][0] == u[0]] or dflt
+                cands.append({"in": [i, rng.choice(same_ns)], "out": []})
+                cands.append({"in": [i, rng.choice(dflt)], "out": [i]})
+        for d in rng.sample(dflt, min(8, len(dflt))):                           # one requested (namespace, locale), two units
+            o = pick(self.info[d]["req"])
+            if o is not None:
+                cands.append({"in": [o, d], "out": []})
+                w = rng.choice(units)
+                k = pick(w)
+                if k is not None and w not in (self.info[d]["unit"], self.info[d]["req"]):
+                    cands.append({"in": [o, d], "out": [k]})
+                    cands.append({"in": [d], "out": [k]})
+        for _ in range(12):                                                      # several units inside, another one outside only
+            n = rng.choice([1, 2, 3, 4, 5])
+            us = rng.sample(units, min(n + 1, len(units)))
+            ins = [x for x in (pick(u, rng.choice([None, "interp_top", "interp_sub", "plain_sub"])) or pick(u) for u in us[:-1]) if x is not None]
+            k = pick(us[-1])
+            if ins and k is not None and len(us) > 1:
+                cands.append({"in": ins, "out": [k]})
+                cands.append({"in": ins + [rng.choice(ins)], "out": [k]})
+        if self.proj.namespaces:                                                 # one locale across all namespaces / one namespace across locales
+            for loc in self.proj.locales:
+                ins = [x for x in (pick((ns, loc)) for ns in self.proj.namespaces if (ns, loc) in units) if x is not None]
+                cands.append({"in": ins, "out": []})
+                if len(ins) > 1:
+                    cands.append({"in": ins[:-1], "out": ins[-1:]})
+        for ns in (self.proj.namespaces or [None]):
+            ins = [x for x in (pick((ns, loc)) for loc in self.proj.locales if (ns, loc) in units) if x is not None]
+            cands.append({"in": ins, "out": []})
+            if len(ins) > 1:
+                cands.append({"in": ins[:-1], "out": ins[-1:]})
         everything = [x for x in (pick(u) for u in units) if x is not None]
         cands.append({"in": everything, "out": []})
         cands.append({"in": everything, "out": everything[:1]})
@@ -213,17 +250,38 @@ class Plan:
         return cands
 
 
+FEASIBLE = None
+
+
+def feasible_pairs():
+    global FEASIBLE
+    if FEASIBLE is None:
+        names = list(DIMS)
+        FEASIBLE = {(A, a, B, b) for i, A in enumerate(names) for B in names[i + 1:] for a in DIMS[A] for b in DIMS[B]
+                    if not infeasible(A, a, B, b)}
+    return FEASIBLE
+
+
 def plan_requests(rng, plan, n_random, covered, cap):
-    """random requests first, then requests chosen (one or two at a time) to reach pairs of tag values not reached yet.
-    `covered` is the set of pairs reached so far in this run (updated)."""
-    reqs, st = [], plan.new_state()
+    """Sequences of requests, one sequence per server PROCESS (the probe binary is started once per sequence and renders
+    its requests one after the other).  Random requests first, then requests chosen to reach pairs of tag values not
+    reached yet in this run (`covered`, updated): a candidate alone, after an empty page, after a page that used every
+    unit, twice in a row, or as the first request of a new process."""
+    procs = [[]]
+    st = plan.new_state()
+    total = 0
 
     def push(r):
-        nonlocal st
-        t, st2 = plan.tags(r, st)
+        nonlocal st, total
+        t, st = plan.tags(r, st)
         covered.update(sc.case_pairs(t, DIMS))
-        reqs.append(r)
-        st = st2
+        procs[-1].append(r)
+        total += 1
+
+    def restart():
+        nonlocal st
+        procs.append([])
+        st = plan.new_state()
     push({"in": [], "out": []})                       # a page that uses no translation, at process start
     idx = list(range(len(plan.touch_list)))
     units = plan.all_units
@@ -239,30 +297,42 @@ def plan_requests(rng, plan, n_random, covered, cap):
         push({"in": r, "out": []})
         if rng.random() < 0.3:
             push({"in": list(r), "out": []})             # the same page again
-    feasible = {(A, a, B, b) for i, A in enumerate(DIMS) for B in list(DIMS)[i + 1:] for a in DIMS[A] for b in DIMS[B]
-                if not infeasible(A, a, B, b)}
+    feasible = feasible_pairs()
     cands = plan.candidates(rng)
-    setups = [None, {"in": [], "out": []}] + [c for c in cands if len(c["in"]) == len(units) and not c["out"]][:1]
-    while len(reqs) < cap:
+    everything = [c for c in cands if len({plan.info[i]["unit"] for i in c["in"]}) == len(units) and not c["out"]][:1]
+    empty = {"in": [], "out": []}
+    refreshed = 0
+    while total < cap:
         missing = feasible - covered
         if not missing:
             break
-        best, gain = None, 0
+        best, gain = None, 0.0
         for c in cands:
-            for su in setups + [c]:
-                seq = [c] if su is None else [su, c]
-                s2, got = st, set()
+            options = [(False, [c]), (False, [empty, c]), (False, [c, c]), (True, [c]), (True, [empty, c]), (True, [c, c])]
+            if everything:
+                options += [(False, [everything[0], c]), (False, [everything[0], empty])]
+            if len(c["in"]) > 1:
+                half = {"in": c["in"][:1], "out": []}       # one of its units has been seen, the others have not
+                options += [(True, [half, c]), (True, [half, empty, c])]
+            for fresh, seq in options:
+                s2, got = (plan.new_state() if fresh else st), set()
                 for r in seq:
                     t, s2 = plan.tags(r, s2)
                     got |= sc.case_pairs(t, DIMS)
-                g = len(got & missing) / len(seq)
+                g = len(got & missing) / (len(seq) + (0.5 if fresh else 0))
                 if g > gain:
-                    best, gain = seq, g
-        if not best:
-            break
-        for r in best:
+                    best, gain = (fresh, seq), g
+        if best is None:
+            if refreshed >= 4:
+                break
+            refreshed += 1
+            cands = plan.candidates(rng)          # other random picks of keys / partner units
+            continue
+        if best[0]:
+            restart()
+        for r in best[1]:
             push(r)
-    return reqs
+    return [p for p in procs if p]
 
 
 def one_project(ctx, exe_tables, proj, tag, n_random, covered, cap):
@@ -281,25 +351,32 @@ def one_project(ctx, exe_tables, proj, tag, n_random, covered, cap):
     if tables["status"] != "OK":
         raise core.Infra("generated probe project rejected by the parser: %s" % tables["err"])
     plan = Plan(proj, touch_list, tables)
-    reqs = plan_requests(rng, plan, n_random, covered, cap)
+    procs = plan_requests(rng, plan, n_random, covered, cap)
     exe = sc.build_probe(d, name)
-    # ONE process renders the whole sequence: whatever a request leaves behind in the process is seen by the next one
-    lines_in = "".join(",".join([str(i) for i in r["in"]] + ["o%d" % i for i in r["out"]]) + "\n" for r in reqs)
-    rc, out, err = core.sh([exe], input=lines_in, timeout=900)
-    lines = out.splitlines()
-    if rc != 0 or len(lines) != len(reqs):
-        raise core.Infra("probe: %d lines for %d requests (rc %s); %s" % (len(lines), len(reqs), rc, err[-400:]))
+    # ONE process renders a whole sequence: whatever a request leaves behind in the process is seen by the next one
+    runs = []
+    for pi, reqs in enumerate(procs):
+        lines_in = "".join(",".join([str(i) for i in r["in"]] + ["o%d" % i for i in r["out"]]) + "\n" for r in reqs)
+        rc, out, err = core.sh([exe], input=lines_in, timeout=900)
+        lines = out.splitlines()
+        if rc != 0 or len(lines) != len(reqs):
+            raise core.Infra("probe: %d lines for %d requests (rc %s); %s" % (len(lines), len(reqs), rc, err[-400:]))
+        runs.append((pi, reqs, lines))
     unit_names, defs = {}, []
     for j, ((ns, loc), u) in enumerate(sorted(tables["units"].items(), key=lambda kv: (kv[0][0] or "", kv[0][1]))):
         unit_names[(ns, loc)] = "T_%s_%d" % (tag, j)
         defs.append("Definition T_%s_%d : list str := %s." % (tag, j, sc.coq_strs(u["strings"])))
     items, metas, panics = [], [], []
-    st = plan.new_state()
-    for seq_no, (r, line) in enumerate(zip(reqs, lines)):
-        tags, st = plan.tags(r, st)
+    flat = []
+    for pi, reqs, lines in runs:
+        st = plan.new_state()
+        for seq_no, (r, line) in enumerate(zip(reqs, lines)):
+            tags, st = plan.tags(r, st)
+            flat.append((pi, seq_no, r, line, tags))
+    for pi, seq_no, r, line, tags in flat:
         touched = [touch_list[i] for i in r["in"]]
         used = sorted({plan.info[i]["unit"] for i in r["in"]}, key=lambda x: (x[0] or "", x[1]))
-        meta = {"project": tag, "position_in_process": seq_no, "locales": proj.locales, "namespaces": proj.namespaces,
+        meta = {"project": tag, "process": pi, "position_in_process": seq_no, "locales": proj.locales, "namespaces": proj.namespaces,
                 "touched": [{"namespace": t[0], "locale": t[1], "key": ".".join(t[2]),
                              "reads_locale": plan.info[i]["unit"][1]} for i, t in zip(r["in"], touched)],
                 "touched_outside_provider": [{"namespace": touch_list[i][0], "locale": touch_list[i][1],
@@ -345,11 +422,11 @@ def run(ctx):
     rng = ctx.rng
     # random projects (nested subkeys, defaulted keys, inherits) and class-matrix projects (every class of adversarial
     # text first / in the middle / last in some unit's table), each with string ids (namespaces) and with the null id
-    projects = [("ns", sc.gen_project(rng, max_locales=3, force_ns=True), 30),
-                ("plain", sc.gen_project(rng, max_locales=3, force_ns=False), 30),
-                ("mx_ns", sc.matrix_project(rng, True), 10),
-                ("mx_a", sc.matrix_project(rng, False, shift=0, n_units=6), 10),
-                ("mx_b", sc.matrix_project(rng, False, shift=6, n_units=6), 10)]
+    projects = [("ns", sc.gen_project(rng, max_locales=3, force_ns=True), 60),
+                ("plain", sc.gen_project(rng, max_locales=3, force_ns=False), 60),
+                ("mx_ns", sc.matrix_project(rng, True), 25),
+                ("mx_a", sc.matrix_project(rng, False, shift=0, n_units=6), 25),
+                ("mx_b", sc.matrix_project(rng, False, shift=6, n_units=6), 25)]
     if not ctx.quick:
         for j in range(2, 5):
             projects += [("ns%d" % j, sc.gen_project(rng, max_locales=4, force_ns=True), 150),
